@@ -22,7 +22,8 @@ type encCase struct {
 	msg     string
 	attrs   []gattr
 	caller  bool
-	pc      uintptr // a real program counter for the caller field (0: the zero frame)
+	pc      uintptr    // a real program counter for the caller field (0: the zero frame)
+	built   slog.Attrs // when set: the attribute slice to pass (the caller keeps it and may pass it again)
 	tagW    int
 	minW    int
 	payload []byte
@@ -67,7 +68,7 @@ func encRun(r *run, prop string, c *encCase) {
 				panicked = fmt.Sprint(p)
 			}
 		}()
-		l.(slog.LogSlogAware).WriteThru(context.Background(), slog.Level(c.lvl), c.ts, c.pc, c.msg, toAttrs(c.attrs))
+		l.(slog.LogSlogAware).WriteThru(context.Background(), slog.Level(c.lvl), c.ts, c.pc, c.msg, encAttrsOf(c))
 	}()
 	w := rec.take()
 	c.writes = len(w)
@@ -93,6 +94,14 @@ func encRun(r *run, prop string, c *encCase) {
 	line := fmt.Sprintf("ENC %s %d %s %s %s %s %d %d %s", c.format, c.lvl, hxs(c.tsText), hxs(c.name), hxs(c.msg), callerTok, c.tagW, c.minW,
 		strings.Join(attrsTokens(c.attrs), " "))
 	r.emit(strings.TrimRight(line, " "), obs)
+}
+
+// encAttrsOf: the prepared slice if there is one, else a fresh one
+func encAttrsOf(c *encCase) slog.Attrs {
+	if c.built != nil {
+		return c.built
+	}
+	return toAttrs(c.attrs)
 }
 
 func encDescribe(c *encCase) map[string]any {
